@@ -464,6 +464,10 @@ LevelsR(level, d) == IF d = 0 THEN <<level>> ELSE LevelsR(NextLevel(level), d - 
 \* MerkleHashes(hashes, depth): levels[1] = root level ... levels[depth+1] = leaves   (Go index + 1)
 Levels(hs) == LevelsR(hs, Depth(Len(hs)))
 XLeaves(kk) == [j \in 1..kk |-> Leaf(j - 1)]
+\* a second list of the same size that shares the first leaf with XLeaves(kk): values 0, 201, 202, ...
+XLeavesB(kk) == [j \in 1..kk |-> Leaf(IF j = 1 THEN 0 ELSE 200 + j - 1)]
+XList(lst, kk) == IF lst = "B" THEN XLeavesB(kk) ELSE XLeaves(kk)
+XVals(lst, kk) == [j \in 1..kk |-> XList(lst, kk)[j][2]]
 XRoot(kk) == Levels(XLeaves(kk))[1][1]
 
 \* MerkleLeafPath(value at index, hashes): sequence of <<side, hash>>; index zero-based
@@ -499,9 +503,17 @@ QueryB(a) == act' = a /\ UNCHANGED <<n, hashes, file, wpos, mem, k>>
 ENm(e) == <<e[1], Nm(e[2])>>
 ENms(es) == [i \in 1..Len(es) |-> ENm(es[i])]
 
-GenPath(j) == /\ j < k
-              /\ QueryB([name |-> "GenPath", val |-> j, elems |-> ENms(LeafPath(XLeaves(k), j)),
-                         root |-> Nm(XRoot(k)), rfcroot |-> Nm(MTH(0, k)), vlen |-> VLen(j), vlens |-> VLens(k)])
+\* MerkleLeafPath / MerkleProve are FUNCTIONS of their arguments: the path for (list, index) does not depend
+\* on which lists were asked about before (GenPath is a self-loop without any state; the replay asks for a
+\* path of the OTHER list of the same size and first leaf first, re-using and overwriting one slice)
+GenPath(lst, j) ==
+    /\ j < k
+    /\ LET hs == XList(lst, k) IN
+       QueryB([name |-> "GenPath", lst |-> lst, idx |-> j, val |-> hs[j + 1][2], elems |-> ENms(LeafPath(hs, j)),
+               root |-> Nm(Levels(hs)[1][1]), rfcroot |-> IF lst = "A" THEN Nm(MTH(0, k)) ELSE Nm(Levels(hs)[1][1]),
+               vlen |-> VLen(hs[j + 1][2]), vals |-> XVals(lst, k), vlens |-> [i \in 1..k |-> VLen(XVals(lst, k)[i])],
+               ovals |-> XVals(IF lst = "A" THEN "B" ELSE "A", k),
+               ovlens |-> [i \in 1..k |-> VLen(XVals(IF lst = "A" THEN "B" ELSE "A", k)[i])]])
 
 \* nodes of the tree (terms) whose preimage can be offered as a value
 InnerNodes(kk) == {t \in UNION {{Levels(XLeaves(kk))[l][j] : j \in 1..Len(Levels(XLeaves(kk))[l])} : l \in 1..(Depth(kk) + 1)} : t[1] = "N"}
@@ -542,7 +554,7 @@ DoProve(c, j) ==
 
 InitB == InitA
 NextB == \/ GrowK
-         \/ \E j \in 0..(k - 1) : GenPath(j)
+         \/ \E j \in 0..(k - 1) : \E lst \in {"A", "B"} : GenPath(lst, j)
          \/ \E j \in 0..(k - 1) : \E c \in ProveCases(j) : DoProve(c, j)
 SpecB == InitB /\ [][NextB]_vars
 
@@ -551,6 +563,10 @@ XRootOK == k >= 1 => XRoot(k) = MTH(0, k)
 \* C27 completeness: the generated path of every member proves it
 XCompleteOK == \A j \in 0..(k - 1) :
                   Prove([val |-> j, venc |-> "ok", elems |-> LeafPath(XLeaves(k), j), trail |-> 0], XRoot(k)) = "ok"
+\* C27: a generated path depends on (list, index) only
+XFunctionOK == [][act'.name = "GenPath" => act'.elems = ENms(LeafPath(XList(act'.lst, k), act'.idx))
+                                           /\ Prove([val |-> act'.val, venc |-> "ok", elems |-> LeafPath(XList(act'.lst, k), act'.idx), trail |-> 0],
+                                                    Levels(XList(act'.lst, k))[1][1]) = "ok"]_vars
 \* C27 soundness: whatever proves against the list's root proves a member of the list
 XSoundOK == [][act'.name = "Prove" /\ act'.res = "ok" /\ act'.root = Nm(XRoot(k)) => act'.val \in 0..(k - 1)]_vars
 \* a path proves at most the value it was generated for
